@@ -115,8 +115,56 @@ def run_signal_cut(doc: dict) -> dict:
     return res
 
 
+def run_bound_echo(doc: dict) -> dict:
+    """An inner graph entered below its first node (with_entrypoint) whose upstream value is supplied by its OWN binding: that value
+    is an input and an output of the nested graph at once. Whatever the inner graph returns when run directly, the wrapper exposes."""
+    res = empty_result()
+    inner = {"name": "EI", "nodes": [{"kind": "fn", "name": "ea", "params": [{"name": "ex"}], "outs": ["ep"]}, {"kind": "fn", "name": "eb", "params": [{"name": "ep"}], "outs": ["eq"]}],
+             "order": [0, 1], "entrypoints": ["eb"], "bind": {"ep": doc["value"]}}
+    ren = {"ep": "ep_out"} if doc.get("rename") else {}
+    outer = {"name": "top", "nodes": [{"kind": "graph", "name": "EI", "graph": inner, "renames": [{"outputs": ren}] if ren else []},
+                                      {"kind": "fn", "name": "ec", "params": [{"name": ren.get("ep", "ep")}, {"name": "eq"}], "outs": ["er"]}], "order": [0, 1]}
+    viol: list = []
+    rts = []
+    try:
+        for mode in ("sync", "async"):
+            wd = run_world(copy.deepcopy(inner), {}, mode=mode, cfg=doc["cfg"] if mode == "async" else None)
+            wn = run_world(copy.deepcopy(outer), {}, mode=mode, cfg=doc["cfg"] if mode == "async" else None)
+            rts += [wd["rt"], wn["rt"]]
+            res["runs"] += 2
+            d, n = wd["out"], wn["out"]
+            if n["status"] == "raised" and n["error"] and n["error"][0] in ("ValueError", "GraphConfigError", "MissingInputError"):
+                res["discard"] = "nested_variant_rejected_by_validation"
+                return res
+            if d["status"] != "completed":
+                res["discard"] = "inner_graph_run_not_completed"
+                return res
+            # the wrapper lists ep among its outputs and the outer node consumes it: the value the inner graph was given for ep (its own
+            # binding) is what the wrapper exposes, next to everything the inner run returns
+            exposed = {ren.get(k, k): v for k, v in (d["values"] or {}).items()}
+            exposed[ren.get("ep", "ep")] = doc["value"]
+            got = n["values"] or {}
+            wrong = sorted(k for k, v in exposed.items() if k not in got or canon(got[k]) != canon(v))
+            if n["status"] != "completed" or wrong or "er" not in got:
+                viol.append((f"{mode}[bound_echo]:wrapper_does_not_expose_an_output_of_the_inner_graph", {"expected": exposed, "nested": [n["status"], got, n["error"]], "wrong_or_missing": wrong, "consumer_ran": "er" in got}))
+    except BuildError:
+        res["discard"] = "build_error"
+        return res
+    res["violations"] = viol
+    res["nontrivial"] = True
+    res["stats"]["bound_echo_cases"] = 1
+    res["shape"] = digest(["bound_echo", doc.get("rename")], 8)
+    res["sched"] = "-"
+    res["sig"] = res["shape"]
+    res["hdigest"] = hist_digest(rts)
+    return res
+
+
 def gen_case(rng: random.Random, tier: str) -> dict:
-    if rng.random() < 0.03:
+    r0 = rng.random()
+    if r0 < 0.02:
+        return {"kind": "bound_echo", "value": rng.randint(1, 9), "rename": True, "cfg": gen.gen_async_cfg(rng, allow_hold=False)}
+    if r0 < 0.05:
         return gen_signal_cut(rng)
     g = gen.gen_dag(rng, max_nodes=10 if tier == "thorough" else 8, p_edge_default=0.08)
     inp = gen.gen_inputs(rng, g)
@@ -286,6 +334,8 @@ def _invocation_multiset(rt) -> list:
 def run_case(doc: dict) -> dict:
     if doc.get("kind") == "signal_cut":
         return run_signal_cut(doc)
+    if doc.get("kind") == "bound_echo":
+        return run_bound_echo(doc)
     res = empty_result()
     g = doc["graph"]
     inp = doc["inputs"]
@@ -405,6 +455,8 @@ def run_case(doc: dict) -> dict:
 
 
 def shrink_candidates(doc: dict):
+    if doc.get("kind") == "bound_echo":
+        return
     if doc.get("kind") == "signal_cut":
         if doc.get("depth") == 2:
             yield dict(doc, depth=1)
@@ -478,6 +530,8 @@ def signature(doc: dict, cls: str, detail) -> str:
 
 
 def sample_repr(doc: dict, res: dict):
+    if doc.get("kind") == "bound_echo":
+        return {"template": "inner graph entered below its first node, upstream value from its own binding", "rename": doc.get("rename")}
     if doc.get("kind") == "signal_cut":
         return {"template": "producer of a signal wrapped, waiter outside", "depth": doc.get("depth"), "with_data_edge": doc.get("with_data_edge")}
     return {"nodes": [[n["name"], [p["name"] + ("=d" if "default" in p else "") for p in n["params"]], n["outs"]] for n in doc["graph"]["nodes"]],
